@@ -277,6 +277,15 @@ def route_case(ctx, case):
                         if sup.is_alive():
                             hung.append(h['id'])
                             _HUNG_SEEN[0] += 1
+                if h['do'] == 'note':
+                    # the handler deals with the error and queues a packet
+                    # (a report it would like to send) without closing
+                    # anything itself; an outgoing listener of the user's
+                    # objects to such packets (note_guard below).  Whatever
+                    # the clean-up does with the queue, nothing may escape
+                    # the thread and the connection must end up closed.
+                    conn.write_packet(sb.play.ChatPacket(
+                        message='note%d' % h['id']))
                 if h['do'] == 'bye':
                     # graceful shutdown from a handler: queue a farewell and
                     # call the plain (flushing) disconnect()
@@ -306,6 +315,16 @@ def route_case(ctx, case):
             else:
                 conn.register_exception_handler(
                     make_handler(h), *types, early=bool(h.get('early')))
+
+        if any(h['do'] == 'note' for h in chain):
+            ctx.label('handler_queues_note_guarded_by_outgoing_listener')
+
+            def note_guard(p):
+                if str(p.message).startswith('note'):
+                    raise RuntimeError('outgoing listener rejects %r'
+                                       % (p.message,))
+            conn.register_packet_listener(note_guard, sb.play.ChatPacket,
+                                          outgoing=True)
 
         def raiser(p):
             if not fault['raised']:
@@ -564,7 +583,7 @@ def handler_strategy():
         'early': st.booleans(),
         'do': st.sampled_from(['return', 'raise', 'raise', 'reraise',
                                'reconnect', 'reconnect_direct', 'bye',
-                               'bare_raise', 'supervised']),
+                               'bare_raise', 'supervised', 'note']),
         'new': st.sampled_from(sorted(CLASSES))})
 
 
@@ -593,6 +612,12 @@ def fix_case(c):
             c.get('reset') or c.get('pending_write_error'):
         # a farewell needs a live play-state session to be sent on
         c = dict(c, chain=[dict(h, do='return') if h['do'] == 'bye' else h
+                           for h in c['chain']])
+    if any(h['do'] in ('bye', 'supervised', 'reconnect', 'reconnect_direct')
+           for h in c['chain']) or c.get('pending_write_error'):
+        # a queued note is only unambiguous while no handler flushes the
+        # queue or starts a session it would legitimately be sent on
+        c = dict(c, chain=[dict(h, do='return') if h['do'] == 'note' else h
                            for h in c['chain']])
     if any(h['do'] == 'raise' for h in c['chain']) or \
             c['origin'] == 'hook_raises':
@@ -684,7 +709,12 @@ def t_origins(ctx):
                           [{'filter': [], 'early': True, 'do': 'return',
                             'as_tuple': True}],
                           [{'filter': [], 'early': False,
-                            'do': 'supervised'}]):
+                            'do': 'supervised'}],
+                          [{'filter': [], 'early': False, 'do': 'note'}],
+                          [{'filter': ['C'], 'early': True, 'do': 'note'},
+                           {'filter': ['B'], 'early': False, 'do': 'note'},
+                           {'filter': [], 'early': False,
+                            'do': 'return'}]):
                 for comp in (None, 256):
                     route_case(ctx, fix_case({
                         'origin': origin, 'exc': 'B', 'chain': chain,
